@@ -98,8 +98,8 @@ func (c *Chooser) choose(p point) int {
 		ch = c.prefix[pos]
 		if ch >= p.n {
 			panic(InfraError{fmt.Sprintf("replay divergence at point %d (%s): "+
-				"choice %d but menu has %d entries; prefix=%v", pos,
-				p.label, ch, p.n, c.prefix)})
+				"choice %d but menu has %d entries; prefix=%v; the execution that generated this prefix saw: %s; events so far: %v", pos,
+				p.label, ch, p.n, c.prefix, c.ex.expectLast, c.x.Events)})
 		}
 	}
 	c.cost += p.cost(ch)
@@ -237,10 +237,12 @@ type Explorer struct {
 
 	body func(c *Chooser)
 
-	curBound int
-	seen     map[[16]byte][]seenEnt
-	states   int
-	pruned   int64
+	curBound   int
+	poisoned   bool
+	expectLast string
+	seen       map[[16]byte][]seenEnt
+	states     int
+	pruned     int64
 
 	Res Result
 	out map[string]int64
@@ -389,6 +391,9 @@ func (x *Exec) hash() string {
 	return hex.EncodeToString(h.Sum(nil)[:8])
 }
 
+// Labels exposes the labelled choices.
+func (x *Exec) Labels() []string { return x.labels() }
+
 func (x *Exec) labels() []string {
 	l := make([]string, len(x.points))
 	for i, p := range x.points {
@@ -491,9 +496,12 @@ func (e *Explorer) finish() {
 
 func (e *Explorer) runBound() bool {
 	stack := [][]int{{}}
+	expect := []string{""}
 	for len(stack) > 0 {
 		prefix := stack[len(stack)-1]
 		stack = stack[:len(stack)-1]
+		e.expectLast = expect[len(expect)-1]
+		expect = expect[:len(expect)-1]
 		if e.NShards > 1 && len(prefix) >= e.ShardDepth &&
 			e.owner(prefix) != e.Shard {
 			continue
@@ -516,9 +524,16 @@ func (e *Explorer) runBound() bool {
 		owned := e.owner(x.Choices) == e.Shard
 		if owned {
 			e.account(x)
+			if e.poisoned {
+				e.Res.Caps = append(e.Res.Caps, "stopped_after_hang")
+				return false
+			}
 			if len(e.Res.Violations) >= e.MaxViol {
 				return false
 			}
+		} else if x.Viol != nil && x.Viol.Clause == "hang" {
+			e.Res.Caps = append(e.Res.Caps, "stopped_after_hang")
+			return false
 		}
 		// Branch over alternatives at every point past the prefix. Push in
 		// reverse so that the earliest point / lowest alternative is
@@ -537,6 +552,7 @@ func (e *Explorer) runBound() bool {
 				copy(np, x.Choices[:i])
 				np[i] = alt
 				stack = append(stack, np)
+				expect = append(expect, fmt.Sprintf("%s (menu of %d)", p.label, p.n))
 			}
 		}
 	}
@@ -604,6 +620,15 @@ func (e *Explorer) account(x *Exec) {
 		v.Config = e.Config
 		v.Harness = e.Harness
 		if e.sig[v.Clause+"|"+v.Sig] {
+			return
+		}
+		if v.Clause == "hang" {
+			// A goroutine of the component spins (or waits on a mutex)
+			// for ever: it cannot be stopped, so the process is
+			// poisoned. Record the schedule and stop this worker.
+			e.sig[v.Clause+"|"+v.Sig] = true
+			r.Violations = append(r.Violations, v)
+			e.poisoned = true
 			return
 		}
 		// Confirm 5x.
